@@ -13,6 +13,7 @@ RULE = (
     "case = (glyph name set, code point assignment incl. U+FFFE/FFFF/10000/10FFFF, public.glyphOrder or glyphOrder= argument "
     "with duplicates/unknown names/.notdef anywhere, optional UVS map, UFO library, TTF|OTF); oracle = locally computed order "
     "(.notdef, listed existing names first occurrence, rest sorted) and cmap subtables 4/12/14 recomputed from the source; "
+    "optionally colour layers (the <glyph>.<layer> copies are not encoded and are ignored by the order clause); "
     "duplicate code point must raise InvalidFontData. Non-trivial = the glyph order list is non-empty and reorders at least one glyph "
     "relative to the default order, or a supplementary code point is mapped. Distinct = distinct case hash."
 )
@@ -60,9 +61,24 @@ def _case(draw):
     if draw(st.integers(0, 3)) == 0:
         # a second master with the same glyphs and its own stored order: compiled together with the first, each follows its own (or the argument)
         second = {"order": draw(order_st)}
+    spec_ = {"info": {"unitsPerEm": 1000}, "glyphs": glyphs, "lib": lib}
+    colour = False
+    real = [g for g in glyphs if g["name"] != ".notdef"]
+    if len(real) >= 2 and second is None and draw(st.integers(0, 7)) == 0:
+        # colour layers: the first glyph is painted by a layer in which it is a composite of the second one, and in that layer the second glyph carries a
+        # (private-use) code point of its own. The glyphs the compiler copies out of the colour layer are not encoded: the cmap is the default layer's
+        colour = True
+        pfx = "com.github.googlei18n.ufo2ft."
+        lib[pfx + "colorPalettes"] = [[[1, 0, 0, 1]]]
+        real[0]["lib"] = {pfx + "colorLayerMapping": [["color1", 0]]}
+        tri = [[0, 0, "line"], [60, 0, "line"], [30, 50, "line"]]
+        spec_["layers"] = [{"name": "color1", "glyphs": [
+            {"name": real[0]["name"], "width": 500, "unicodes": [], "components": [{"base": real[1]["name"], "t": [1, 0, 0, 1, 0, 0]}]},
+            {"name": real[1]["name"], "width": 500, "unicodes": [0xF8FF], "contours": [tri]}]}]
     return {
         "second": second,
-        "spec": {"info": {"unitsPerEm": 1000}, "glyphs": glyphs, "lib": lib},
+        "colour": colour,
+        "spec": spec_,
         "order": order,
         "as_arg": as_arg,
         "lib_order": lib_order,
@@ -154,9 +170,17 @@ def run_case(case, ctx):
     t = TTFont(io.BytesIO(b.getvalue()))
     exp = expected_order(names, order)
     got = t.getGlyphOrder()
+    if case.get("colour"):
+        # glyphs copied out of the colour layer are named <glyph>.<layer>; where they are placed is not part of the statement
+        extra_ = [n for n in got if n not in names and n != ".notdef"]
+        if any(not n.endswith(".color1") for n in extra_):
+            raise Violation("unexpected glyphs in a colour font", extra=extra_)
+        got = [n for n in got if n not in extra_]
+        exp = [n for n in exp if n not in extra_]
+        ctx.label("colour-layers")
     if got != exp:
         raise Violation("glyph order differs", got=got, expected=exp, order=order)
-    if t["maxp"].numGlyphs != len(exp):
+    if t["maxp"].numGlyphs != len(t.getGlyphOrder()):
         raise Violation("maxp.numGlyphs != number of glyphs", got=t["maxp"].numGlyphs, expected=len(exp))
     mapping = {cp: next(iter(v)) for cp, v in owners.items()}
     bmp = {k: v for k, v in mapping.items() if k <= 0xFFFF}
